@@ -69,7 +69,7 @@ theorem execGetLocal_ok (np : Bool) : StepSpec np execGetLocal := by
   step_start; step_gen [execGetLocal]; all_goals vm_vc
 
 theorem execSetLocal_ok (np : Bool) : StepSpec np execSetLocal := by
-  step_start; step_gen [execSetLocal, boxSet]; all_goals vm_vc
+  step_start; step_gen [execSetLocal]; all_goals vm_vc
 
 theorem execBinaryOp_ok (np : Bool) (F : FloatOps) : StepSpec np (execBinaryOp F) := by
   step_start; step_gen [execBinaryOp, failWith_spec]; all_goals vm_vc
@@ -111,7 +111,7 @@ theorem execGetFree_ok (np : Bool) : StepSpec np execGetFree := by
   step_start; step_gen [execGetFree]; all_goals vm_vc
 
 theorem execSetFree_ok (np : Bool) : StepSpec np execSetFree := by
-  step_start; step_gen [execSetFree, boxSet]; all_goals vm_vc
+  step_start; step_gen [execSetFree]; all_goals vm_vc
 
 theorem execGetLocalPtr_ok (np : Bool) : StepSpec np execGetLocalPtr := by
   step_start; step_gen [execGetLocalPtr]; all_goals vm_vc
